@@ -113,7 +113,11 @@ def extra_cases(seed, quick, first_id):
     add("v5", "Nu6_2", nIn=4, nOut=4, nSp=3, nSO=3, nAct=3)
     add("v6", "Nu6_3", nIn=3, nOut=2, nSp=2, nSO=3, nAct=2, nIrw=3)
     add("v3", "Overwinter", nIn=3, nOut=2, nJS=3)
-    for _ in range(40 if quick else 300):
+    # many elements per vector (a digest that stops after k elements)
+    add("v5", "Nu6_1", nIn=12, nOut=9, nSp=6, nSO=6, nAct=6)
+    add("v6", "Nu6_3", nIn=9, nOut=12, nSp=5, nSO=7, nAct=5, nIrw=6)
+    add("v4", "Heartwood", nIn=10, nOut=10, nJS=3, nSp=6, nSO=6)
+    for _ in range(40 if quick else 600):
         ver = rnd.choice(["sprout1", "sprout2", "v3", "v4", "v4", "v5", "v5", "v5", "v6", "v6", "v6"])
         br = rnd.choice(BRANCHES[ver])
         c = lambda ok, top=4: rnd.randint(0, top) if ok else 0
@@ -135,7 +139,8 @@ def run_harness(ctx, binpath, spec, cases, seed, eq_on_mutants, name, tables=Tru
     for k, ch in enumerate(chunks):
         path = ctx.path("%s_in_%d.json" % (name, k))
         with open(path, "w") as f:
-            json.dump({"spec": spec, "cases": ch, "seed": seed, "opts": {"eq_on_mutants": eq_on_mutants, "tables": tables and k == 0}}, f)
+            json.dump({"spec": spec, "cases": ch, "seed": seed, "opts": {"eq_on_mutants": eq_on_mutants, "tables": tables and k == 0,
+                                "equality": not os.environ.get("VERIF_C04_NOEQ")}}, f)
         env = dict(os.environ)
         env["VERIF_SEED"] = str(seed)
         procs.append((path, subprocess.Popen([binpath, path], stdout=subprocess.PIPE, stderr=subprocess.PIPE, text=True, env=env)))
@@ -172,7 +177,9 @@ def run_harness(ctx, binpath, spec, cases, seed, eq_on_mutants, name, tables=Tru
 def judge(ctx, res, spec, cases, seed, eq_on_mutants):
     by_id = {c["id"]: c for c in cases}
     reported = set()
-    for m in res["mismatches"]:
+    size = lambda m: sum(v for v in m.get("ctx", {}).get("shape", {}).values() if isinstance(v, int) and not isinstance(v, bool))
+    # smallest shapes first: the reported counterexample is a minimal one among those found
+    for m in sorted(res["mismatches"], key=size):
         kind = m["kind"]
         key = (kind, m.get("digest") or m.get("row") or m.get("byte") or m.get("index"))
         if key in reported or len(reported) >= MAX_REPORTED:
@@ -185,7 +192,10 @@ def judge(ctx, res, spec, cases, seed, eq_on_mutants):
         case = dict(by_id[m["ctx"]["case"]])
         if "only" in m:
             case["only"] = m["only"]
-        lib.violation(ctx, {"property": "C04", "kind": kind, "seed": seed, "spec": spec, "case": case,
+        v = case["shape"]["ver"]
+        v = v if not v.startswith("sprout") else ("sprout1" if v == "sprout1" else "sprout2")
+        small = dict(spec, table=[row for row in spec["table"] if row["ver"] == v], trees={v: spec["trees"][v]})
+        lib.violation(ctx, {"property": "C04", "kind": kind, "seed": seed, "spec": small, "case": case,
                             "eq_on_mutants": eq_on_mutants, "detail": m},
                       "%s (shape %s)" % (m["what"], json.dumps(m["ctx"]["shape"], sort_keys=True)))
 
@@ -213,12 +223,14 @@ def run(ctx):
     # (2) replay
     cases = tlc_cases(tcases, quick, ctx.seed)
     n_tlc = len(cases)
-    cases += extra_cases(ctx.seed, quick, len(cases))
     if not quick:
-        # a second sample of every enumerated shape
-        cases += [dict(c, id=len(cases) + k, sample=1) for k, c in enumerate(cases[:n_tlc])]
+        # further samples of every enumerated shape
+        for sample in (1, 2):
+            cases += [dict(c, id=len(cases) + k, sample=sample) for k, c in enumerate(cases[:n_tlc])]
+        n_tlc = len(cases)
+    cases += extra_cases(ctx.seed, quick, len(cases))
     res = run_harness(ctx, binpath, spec, cases, ctx.seed, True, "run")
-    lib.log("[replay] %d transactions (%d TLC shapes x branches, %d seeded): %d txid / %d auth / %d sighash equalities, "
+    lib.log("[replay] %d transactions (%d from TLC shapes x branches, %d seeded larger shapes): %d txid / %d auth / %d sighash equalities, "
             "%d one-field mutants, %d changed/unchanged comparisons, %d of %d table rows exercised, %d mismatches"
             % (res["txs"], n_tlc, len(cases) - n_tlc, res["eq_txid"], res["eq_auth"], res["eq_sig"], res["mutants"],
                res["comparisons"], len(res["rows"]), res["table_rows"], res["mismatch_count"]))
